@@ -508,9 +508,11 @@ def run(ctx):
     # real code really diverges, it is not just long).  Evaluated one by one, each guarded by a timeout:
     # such programs can be expensive for any evaluator.
     slow_tally = {}
+    # hand-written programs first, then the shortest: the cheapest to decide (matters on a loaded machine)
+    slow.sort(key=lambda cd: (not any(f.startswith("corpus:") for f in (cd[0].get("features") or [])), len(cd[0]["src"])))
     for c, d in slow[:3]:
         try:
-            row = coq_eval(ctx, "c01_slow", [d], ["ref", "vm"], timeout=90)[0]
+            row = coq_eval(ctx, "c01_slow", [d], ["ref", "vm"], timeout=300)[0]
         except HarnessError:
             row = ["undecided", "undecided"]
         verdict = "undecided"
